@@ -46,15 +46,27 @@ func (n *verifNodeConf) NodeTypes(string) []nodeconf.NodeType {
 // accepted list delivered through the registered "config" component — runs its Init and returns the credential checker
 // it would use for peers that must prove their identity (verify) or for anonymous ones.
 func VerifServiceChecker(protoVersion uint32, configured []uint32, versionName string, account *accountdata.AccountKeys, verify bool) (handshake.CredentialChecker, error) {
-	s := &secureService{protoVersion: protoVersion}
-	a := new(app.App)
-	a.SetVersionName(versionName)
-	a.Register(&verifAccount{keys: account}).Register(&verifConfig{conf: Config{CompatibleVersions: configured}}).Register(&verifNodeConf{}).Register(s)
-	if err := s.Init(a); err != nil {
+	svc, err := VerifService(protoVersion, configured, versionName, account, verify)
+	if err != nil {
 		return nil, err
 	}
+	s := svc.(*secureService)
 	if verify {
 		return s.peerSignVerifier, nil
 	}
 	return s.noVerifyChecker, nil
+}
+
+// VerifService is the wired and initialised service itself (for HandshakeOutbound / HandshakeInbound, which also
+// build the connection context). verify: inbound peers must prove their identity (RequireClientAuth); for outbound
+// handshakes the caller asks for it with CtxAllowAccountCheck.
+func VerifService(protoVersion uint32, configured []uint32, versionName string, account *accountdata.AccountKeys, verify bool) (SecureService, error) {
+	s := &secureService{protoVersion: protoVersion}
+	a := new(app.App)
+	a.SetVersionName(versionName)
+	a.Register(&verifAccount{keys: account}).Register(&verifConfig{conf: Config{CompatibleVersions: configured, RequireClientAuth: verify}}).Register(&verifNodeConf{}).Register(s)
+	if err := s.Init(a); err != nil {
+		return nil, err
+	}
+	return s, nil
 }
